@@ -546,6 +546,7 @@ class XPathToken(Token[ta.XPathTokenType]):
             right_bool = len(right_values) == 1 and isinstance(right_values[0], bool)
             if left_bool or right_bool:
                 if relational and self.parser.version == '1.0' and \
+                        len(left_items) == 1 and len(right_items) == 1 and \
                         not any(isinstance(x, XPathNode) for x in left_items + right_items):
                     # XPath 1.0: neither operand is a node-set, both are converted to numbers
                     yield self.number_value(left_values[0]), self.number_value(right_values[0])
